@@ -225,6 +225,10 @@ pub struct Shim {
     /// per execution (by ordinal): 0 = the shim reads every parameter, 1 = none, 2 = only the first
     pub skip_iter: Vec<u8>,
     pub n_exec: usize,
+    /// the k-th command callback (0-based among query/prepare/execute/init), after doing what its
+    /// behaviour says, returns Err(marker) instead of Ok ("the client was told, now drop it")
+    pub fail_after: Option<(usize, u64)>,
+    pub n_bound: usize,
 }
 
 impl Shim {
@@ -240,6 +244,18 @@ impl Shim {
             param_probe: None,
             skip_iter: Vec::new(),
             n_exec: 0,
+            fail_after: None,
+            n_bound: 0,
+        }
+    }
+
+    /// the result of a command callback, possibly replaced by the scripted late failure
+    fn leave(&mut self, r: Result<(), ShimErr>) -> Result<(), ShimErr> {
+        let k = self.n_bound;
+        self.n_bound += 1;
+        match (r, self.fail_after) {
+            (Ok(()), Some((at, m))) if at == k => Err(ShimErr::Marker(m)),
+            (r, _) => r,
         }
     }
 
@@ -339,7 +355,7 @@ impl<'s, W: Read + Write> MysqlShim<W> for &'s mut Shim {
 
     fn on_prepare(&mut self, query: &str, info: StatementMetaWriter<'_, W>) -> Result<(), ShimErr> {
         let (idx, b) = self.enter(Cb::Prepare(query.to_owned()));
-        match b {
+        let r = (|| match b {
             Behavior::PrepReply { id, params, cols } => {
                 let r = info.reply(id, &params[..], &cols[..]);
                 self.calls.push(CallRes {
@@ -363,7 +379,8 @@ impl<'s, W: Read + Write> MysqlShim<W> for &'s mut Shim {
             Behavior::Fail(m) => Err(ShimErr::Marker(m)),
             Behavior::Silent => Ok(()),
             other => panic!("VERIF harness bug: behaviour {:?} for on_prepare", other),
-        }
+        })();
+        self.leave(r)
     }
 
     fn on_execute(&mut self, id: u32, params: ParamParser<'_>, results: QueryResultWriter<'_, W>) -> Result<(), ShimErr> {
@@ -383,12 +400,13 @@ impl<'s, W: Read + Write> MysqlShim<W> for &'s mut Shim {
             }
         }
         let (idx, b) = self.enter(Cb::Execute { id, params: ps });
-        match b {
+        let r = match b {
             Behavior::Prog(p) => run_prog(&p[..], results, idx, &mut self.calls),
             Behavior::Fail(m) => Err(ShimErr::Marker(m)),
             Behavior::Silent => Ok(()),
             other => panic!("VERIF harness bug: behaviour {:?} for on_execute", other),
-        }
+        };
+        self.leave(r)
     }
 
     fn on_close(&mut self, stmt: u32) {
@@ -397,12 +415,13 @@ impl<'s, W: Read + Write> MysqlShim<W> for &'s mut Shim {
 
     fn on_query(&mut self, query: &str, results: QueryResultWriter<'_, W>) -> Result<(), ShimErr> {
         let (idx, b) = self.enter(Cb::Query(query.to_owned()));
-        match b {
+        let r = match b {
             Behavior::Prog(p) => run_prog(&p[..], results, idx, &mut self.calls),
             Behavior::Fail(m) => Err(ShimErr::Marker(m)),
             Behavior::Silent => Ok(()),
             other => panic!("VERIF harness bug: behaviour {:?} for on_query", other),
-        }
+        };
+        self.leave(r)
     }
 
     fn on_init(&mut self, db: &str, w: InitWriter<'_, W>) -> Result<(), ShimErr> {
@@ -410,8 +429,8 @@ impl<'s, W: Read + Write> MysqlShim<W> for &'s mut Shim {
         let r = match b {
             Behavior::InitOk => w.ok(),
             Behavior::InitErr(k, m) => w.error(k, &m[..]),
-            Behavior::Silent => return Ok(()),
-            Behavior::Fail(m) => return Err(ShimErr::Marker(m)),
+            Behavior::Silent => return self.leave(Ok(())),
+            Behavior::Fail(m) => return self.leave(Err(ShimErr::Marker(m))),
             other => panic!("VERIF harness bug: behaviour {:?} for on_init", other),
         };
         self.calls.push(CallRes {
@@ -419,8 +438,8 @@ impl<'s, W: Read + Write> MysqlShim<W> for &'s mut Shim {
             op: 0,
             res: r.as_ref().map(|_| ()).map_err(|e| e.to_string()),
         });
-        r?;
-        Ok(())
+        let r = r.map_err(ShimErr::from);
+        self.leave(r)
     }
 
     fn tls_config(&self) -> Option<Arc<rustls::ServerConfig>> {
